@@ -2,7 +2,7 @@
     are the shared-memory operations of [broadcast_task] (caller) and of the
     worker loop in [spawn], with ghost state for the property statements.
 
-    Executable: [step s l] returns the successor when label [l] is enabled, so
+    Executable: [step c s l] returns the successor when label [l] is enabled, so
     the same definition serves the proofs (all interleavings = all label
     sequences accepted by [step]) and the trace replay of the correspondence
     check (the real pool, compiled against a deterministic scheduler, emits the
@@ -10,20 +10,66 @@
 
     Shape constants that an edit of the code can change without any execution
     on x86 noticing (memory orderings) or that are single tokens (the [while]
-    around [park], the [== 1] test) come from Generated/Consts.v. *)
+    around [park], the [> 0] and [== 1] tests) are the fields of [cfg];
+    [code_cfg] is the instance read from the source by tools/extract_consts.py
+    (Generated/Consts.v).  The theorems are proved for every [cfg] satisfying
+    the side conditions named in Properties/C06.v / C07.v, which are discharged
+    there against [code_cfg] by [reflexivity].
+
+    Code map (pool.rs):
+      EBegin n   [TaskShared::new] (88, 212-217: handle of the caller, ref_count := n)
+                 + lock + spawn of the missing threads (98-109, 225-289)
+      ESend k    [threads[k-1].send(task)] (111-113) meeting worker k's [recv] (243)
+      ERun0 p    [catch_unwind(task.run(0))] (117-118)
+      ELoad      [ref_count.load(Acquire) > 0] (125); leaving the loop returns from
+                 [broadcast] and the stack-pinned task block dies (92)
+      EPark / ESpurious   [thread::park()] (126) returning by token / spuriously
+      EWRun k p  [catch_unwind(task.run(thread_id))] (247-250)
+      EWClone k  [task.shared.as_ref().main_thread.clone()] (260-261)
+      EWDec k    [ref_count.fetch_sub(1, Release)] and the [== 1] test (263-268)
+      EWUnpark k [main_thread.unpark()] through the clone (270)
+      EDrop      the pool (its [Vec<SyncSender>]) is dropped
+      EWExit k   worker k's [recv] returns [Err], the loop ends (243, 279) *)
 
 From DivanV Require Import Base.Res Generated.Consts.
 From Coq Require Import Arith.
 
 Module PoolM.
 
+(** * Configuration read from the source *)
+
+Record cfg := {
+  c_load : mem_order;       (* ordering of [ref_count.load] in the wait loop *)
+  c_dec : mem_order;        (* ordering of [ref_count.fetch_sub] *)
+  c_unpark_old : nat;       (* the worker unparks iff fetch_sub returned this *)
+  c_loop : bool;            (* [while] (true) or [if] (false) around [park] *)
+  c_nonzero : bool          (* the loop condition is "ref_count is non-zero" *)
+}.
+
+Definition code_cfg : cfg :=
+  {| c_load := pool_load_ordering; c_dec := pool_dec_ordering;
+     c_unpark_old := N.to_nat pool_unpark_when_old;
+     c_loop := pool_wait_is_loop; c_nonzero := pool_wait_while_nonzero |}.
+
+Definition is_release (o : mem_order) : bool :=
+  match o with ORelease | OAcqRel | OSeqCst => true | _ => false end.
+Definition is_acquire (o : mem_order) : bool :=
+  match o with OAcquire | OAcqRel | OSeqCst => true | _ => false end.
+
+(** * State *)
+
 (** A call of the task: (broadcast number, index). *)
 Definition call := (nat * nat)%type.
 Definition view := list call.
 
+Definition call_eqb (a b : call) : bool := Nat.eqb (fst a) (fst b) && Nat.eqb (snd a) (snd b).
+Definition vmem (c : call) (v : view) : bool := existsb (call_eqb c) v.
+Definition vadd (c : call) (v : view) : view := if vmem c v then v else c :: v.
+Definition vunion (a b : view) : view := fold_right vadd b a.
+
 (** Worker thread states (program counter of the loop in [spawn]). *)
 Inductive wstate :=
-| WIdle                 (* blocked in [receiver.recv()] *)
+| WIdle                 (* in (or on its way to) [receiver.recv()] *)
 | WRun (b : nat)        (* received the task of broadcast b; next: task.run(k) *)
 | WClone (b : nat)      (* next: clone main_thread handle out of the task block *)
 | WDec (b : nat)        (* next: ref_count.fetch_sub(1) *)
@@ -36,8 +82,16 @@ Inductive cstate :=
 | CSend (k n : nat)     (* next: threads[k-1].send(task), 1 <= k <= n *)
 | CRun (n : nat)        (* next: task.run(0) *)
 | CLoad (n : nat)       (* next: ref_count.load() *)
-| CPark (n : nat)       (* load saw > 0; next: thread::park() *)
+| CPark (n : nat)       (* the loop condition held; next: thread::park() *)
 | CDone.                (* pool dropped *)
+
+(** What is recorded when a broadcast returns. *)
+Record ret := {
+  r_b : nat;                     (* broadcast number *)
+  r_n : nat;                     (* its aux thread count *)
+  r_view : view;                 (* the caller's view at return *)
+  r_slots : list (option nat)    (* par_extend's result slots at return *)
+}.
 
 Record state := {
   script : list nat;          (* aux thread counts of the broadcasts still to come *)
@@ -55,7 +109,7 @@ Record state := {
   cview : view;               (* calls the caller happens-after *)
   lview : view;               (* view attached to the ref_count location (release sequence) *)
   wviews : list view;         (* per-worker views *)
-  returned : list (nat * view) (* ghost: (broadcast, caller view at return) *)
+  returned : list ret         (* one record per returned broadcast, oldest first *)
 }.
 
 Definition init (scr : list nat) : state :=
@@ -76,11 +130,6 @@ Inductive label :=
 | EWUnpark (k : nat)
 | EDrop                     (* ThreadPool dropped: all senders dropped *)
 | EWExit (k : nat).
-
-Definition is_release (o : mem_order) : bool :=
-  match o with ORelease | OAcqRel | OSeqCst => true | _ => false end.
-Definition is_acquire (o : mem_order) : bool :=
-  match o with OAcquire | OAcqRel | OSeqCst => true | _ => false end.
 
 Fixpoint set_nth {A} (i : nat) (x : A) (l : list A) : list A :=
   match l, i with
@@ -106,7 +155,23 @@ Definition touch_ok (s : state) (b : nat) : bool := alive s && Nat.eqb b (cur s)
 
 Definition upd_bad (s : state) (ok : bool) : bool := bad s || negb ok.
 
-Definition step (s : state) (l : label) : option state :=
+(** The caller leaves [broadcast_task]: the task block dies, the return is recorded. *)
+Definition do_return (s : state) (n : nat) (cv : view) (tok : bool) : state :=
+  {| script := script s; cst := CIdle; ws := ws s;
+     rc := rc s; alive := false; cur := cur s; token := tok;
+     calls := calls s; panics := panics s; slots := slots s; bad := bad s;
+     cview := cv; lview := lview s; wviews := wviews s;
+     returned := returned s ++ [{| r_b := cur s; r_n := n; r_view := cv; r_slots := slots s |}] |}.
+
+(** The caller goes (back) to the head of the wait loop. *)
+Definition to_load (s : state) (n : nat) (tok : bool) : state :=
+  {| script := script s; cst := CLoad n; ws := ws s;
+     rc := rc s; alive := alive s; cur := cur s; token := tok;
+     calls := calls s; panics := panics s; slots := slots s; bad := bad s;
+     cview := cview s; lview := lview s; wviews := wviews s;
+     returned := returned s |}.
+
+Definition step (c : cfg) (s : state) (l : label) : option state :=
   match l, cst s with
   | EBegin n, CIdle =>
       match script s with
@@ -136,7 +201,7 @@ Definition step (s : state) (l : label) : option state :=
                     calls := calls s; panics := panics s; slots := slots s; bad := bad s;
                     cview := cview s; lview := lview s;
                     (* the channel hands the caller's view to the worker *)
-                    wviews := setview s k (cview s ++ getview s k);
+                    wviews := setview s k (vunion (cview s) (getview s k));
                     returned := returned s |}
         | _ => None
         end
@@ -148,17 +213,14 @@ Definition step (s : state) (l : label) : option state :=
               panics := (if p then panics s ++ [(cur s, 0)] else panics s);
               slots := (if p then slots s else set_nth 0 (Some 0) (slots s));
               bad := bad s;
-              cview := (cur s, 0) :: cview s; lview := lview s; wviews := wviews s;
+              cview := vadd (cur s, 0) (cview s); lview := lview s; wviews := wviews s;
               returned := returned s |}
   | ELoad, CLoad n =>
-      let cv := if is_acquire pool_load_ordering then lview s ++ cview s else cview s in
-      if Nat.eqb (rc s) 0 then
-        (* [while rc > 0] exits: broadcast returns, the task block dies *)
-        Some {| script := script s; cst := CIdle; ws := ws s;
-                rc := rc s; alive := false; cur := cur s; token := token s;
-                calls := calls s; panics := panics s; slots := slots s; bad := bad s;
-                cview := cv; lview := lview s; wviews := wviews s;
-                returned := returned s ++ [(cur s, cv)] |}
+      let cv := if is_acquire (c_load c) then vunion (lview s) (cview s) else cview s in
+      let leave := if c_nonzero c then Nat.eqb (rc s) 0 else negb (Nat.eqb (rc s) 0) in
+      if leave then
+        (* the loop condition is false: broadcast returns, the task block dies *)
+        Some (do_return s n cv (token s))
       else
         Some {| script := script s; cst := CPark n; ws := ws s;
                 rc := rc s; alive := alive s; cur := cur s; token := token s;
@@ -167,25 +229,11 @@ Definition step (s : state) (l : label) : option state :=
                 returned := returned s |}
   | EPark, CPark n =>
       if token s then
-        Some {| script := script s;
-                (* [while]: re-check the counter; [if]: fall through and return *)
-                cst := (if pool_wait_is_loop then CLoad n else CIdle);
-                ws := ws s;
-                rc := rc s; alive := (if pool_wait_is_loop then alive s else false);
-                cur := cur s; token := false;
-                calls := calls s; panics := panics s; slots := slots s; bad := bad s;
-                cview := cview s; lview := lview s; wviews := wviews s;
-                returned := (if pool_wait_is_loop then returned s else returned s ++ [(cur s, cview s)]) |}
+        (* [while]: re-check the counter; [if]: fall through and return *)
+        Some (if c_loop c then to_load s n false else do_return s n (cview s) false)
       else None
   | ESpurious, CPark n =>
-      Some {| script := script s;
-              cst := (if pool_wait_is_loop then CLoad n else CIdle);
-              ws := ws s;
-              rc := rc s; alive := (if pool_wait_is_loop then alive s else false);
-              cur := cur s; token := token s;
-              calls := calls s; panics := panics s; slots := slots s; bad := bad s;
-              cview := cview s; lview := lview s; wviews := wviews s;
-              returned := (if pool_wait_is_loop then returned s else returned s ++ [(cur s, cview s)]) |}
+      Some (if c_loop c then to_load s n (token s) else do_return s n (cview s) (token s))
   | EWRun k p, _ =>
       match getw s k with
       | Some (WRun b) =>
@@ -197,7 +245,7 @@ Definition step (s : state) (l : label) : option state :=
                   slots := (if p then slots s else set_nth k (Some k) (slots s));
                   bad := upd_bad s (touch_ok s b);
                   cview := cview s; lview := lview s;
-                  wviews := setview s k ((b, k) :: getview s k);
+                  wviews := setview s k (vadd (b, k) (getview s k));
                   returned := returned s |}
       | _ => None
       end
@@ -217,12 +265,12 @@ Definition step (s : state) (l : label) : option state :=
       match getw s k with
       | Some (WDec b) =>
           Some {| script := script s; cst := cst s;
-                  ws := setw s k (if Nat.eqb (rc s) (N.to_nat pool_unpark_when_old) then WUnpark b else WIdle);
+                  ws := setw s k (if Nat.eqb (rc s) (c_unpark_old c) then WUnpark b else WIdle);
                   rc := rc s - 1; alive := alive s; cur := cur s; token := token s;
                   calls := calls s; panics := panics s; slots := slots s;
                   bad := upd_bad s (touch_ok s b && negb (Nat.eqb (rc s) 0));
                   cview := cview s;
-                  lview := (if is_release pool_dec_ordering then getview s k ++ lview s else lview s);
+                  lview := (if is_release (c_dec c) then vunion (getview s k) (lview s) else lview s);
                   wviews := wviews s;
                   returned := returned s |}
       | _ => None
@@ -263,34 +311,37 @@ Definition step (s : state) (l : label) : option state :=
   end.
 
 (** Run a whole label sequence; [None] = some label was not enabled. *)
-Fixpoint run (s : state) (ls : list label) : option state :=
+Fixpoint run (c : cfg) (s : state) (ls : list label) : option state :=
   match ls with
   | [] => Some s
-  | l :: rest => match step s l with Some s' => run s' rest | None => None end
+  | l :: rest => match step c s l with Some s' => run c s' rest | None => None end
   end.
 
-Definition all_exited (s : state) : bool :=
-  forallb (fun w => match w with WExit => true | _ => false end) (ws s).
+Definition is_wexit (w : wstate) : bool := match w with WExit => true | _ => false end.
+
+Definition all_exited (s : state) : bool := forallb is_wexit (ws s).
 
 Definition final (s : state) : bool :=
   match cst s with CDone => all_exited s | _ => false end.
 
-(** All labels that could possibly be enabled in [s] (for deadlock freedom and
-    for the executable explorer used in tests). *)
+(** All non-spurious labels that could possibly be enabled in [s] (for deadlock
+    freedom and for the executable explorer used in tests); [false] stands for
+    both values of the panic flag, which never affects enabledness. *)
 Definition candidate_labels (s : state) : list label :=
   let ks := seq 1 (length (ws s)) in
   (match script s with n :: _ => [EBegin n] | [] => [EDrop] end)
   ++ map ESend ks ++ [ERun0 false; ELoad; EPark]
   ++ map (fun k => EWRun k false) ks ++ map EWClone ks ++ map EWDec ks ++ map EWUnpark ks ++ map EWExit ks.
 
-Definition enabled (s : state) (l : label) : bool :=
-  match step s l with Some _ => true | None => false end.
+Definition enabled (c : cfg) (s : state) (l : label) : bool :=
+  match step c s l with Some _ => true | None => false end.
 
 (** Non-spurious labels enabled in [s]. *)
-Definition enabled_labels (s : state) : list label :=
-  filter (enabled s) (candidate_labels s).
+Definition enabled_labels (c : cfg) (s : state) : list label :=
+  filter (enabled c s) (candidate_labels s).
 
-(** Termination measure (lexicographic pair). *)
+(** * Termination measure (lexicographic pair) *)
+
 Definition wrank (w : wstate) : nat :=
   match w with
   | WExit => 0 | WIdle => 1 | WUnpark _ => 4 | WDec _ => 5 | WClone _ => 6 | WRun _ => 7
@@ -309,45 +360,99 @@ Definition outer_measure (s : state) : nat :=
 Definition inner_measure (s : state) : nat :=
   crank (cst s) + list_sum (map wrank (ws s)) + (if token s then 2 else 0).
 
-(** Number of workers that still hold the task block of broadcast [b]
-    (before their decrement). *)
+(** * Counting workers that still hold the task block *)
+
+(** Worker states before the decrement of broadcast [b]'s counter. *)
 Definition pre_dec (b : nat) (w : wstate) : bool :=
   match w with
   | WRun b' | WClone b' | WDec b' => Nat.eqb b b'
   | _ => false
   end.
 
+Definition any_pre (w : wstate) : bool :=
+  match w with WRun _ | WClone _ | WDec _ => true | _ => false end.
+
 Definition count_pre (s : state) : nat := length (filter (pre_dec (cur s)) (ws s)).
 
-(** * Boolean observations for the violation search (evaluated on replayed
-    implementation traces). *)
+(** * Boolean observations (also evaluated on replayed implementation traces) *)
 
-Definition count_call (c : call) (l : list call) : nat :=
-  length (filter (fun d => Nat.eqb (fst c) (fst d) && Nat.eqb (snd c) (snd d)) l).
+Definition count_call (c : call) (l : list call) : nat := length (filter (call_eqb c) l).
 
-(** Every index 0..n of broadcast [b] was called exactly once. *)
+(** Every index 0..n of broadcast [b] was called exactly once, and nothing else
+    was called on behalf of [b]. *)
 Definition once_per_index (s : state) (b n : nat) : bool :=
   forallb (fun i => Nat.eqb (count_call (b, i) (calls s)) 1) (seq 0 (S n))
   && Nat.eqb (length (filter (fun d => Nat.eqb (fst d) b) (calls s))) (S n).
 
-Definition mem_call (c : call) (v : view) : bool := negb (Nat.eqb (count_call c v) 0).
-
 (** The caller's view at the return of broadcast [b] contains all its calls. *)
+Definition view_has_all (b n : nat) (v : view) : bool :=
+  forallb (fun i => vmem (b, i) v) (seq 0 (S n)).
+
+(** Slot [i] holds [Some i] iff call [i] was made and did not panic. *)
+Definition expected_slot (s : state) (b i : nat) : option nat :=
+  if vmem (b, i) (calls s) && negb (vmem (b, i) (panics s)) then Some i else None.
+
+Definition expected_slots (s : state) (b n : nat) : list (option nat) :=
+  map (expected_slot s b) (seq 0 (S n)).
+
+Definition opt_eqb (a b : option nat) : bool :=
+  match a, b with Some x, Some y => Nat.eqb x y | None, None => true | _, _ => false end.
+
+Fixpoint slots_eqb (a b : list (option nat)) : bool :=
+  match a, b with
+  | [], [] => true
+  | x :: a', y :: b' => opt_eqb x y && slots_eqb a' b'
+  | _, _ => false
+  end.
+
+Definition find_ret (s : state) (b : nat) : option ret :=
+  find (fun r => Nat.eqb (r_b r) b) (returned s).
+
 Definition published (s : state) (b n : nat) : bool :=
-  match find (fun r => Nat.eqb (fst r) b) (returned s) with
-  | Some (_, v) => forallb (fun i => mem_call (b, i) v) (seq 0 (S n))
+  match find_ret s b with
+  | Some r => Nat.eqb (r_n r) n && view_has_all b n (r_view r)
   | None => false
   end.
 
-(** * Executable invariants (proved inductive in Proofs/Pool.v; also evaluated
-    by the explorer in the OCaml driver as a test of the statements). *)
+Definition results_indexed (s : state) (b n : nat) : bool :=
+  match find_ret s b with
+  | Some r => slots_eqb (r_slots r) (expected_slots s b n)
+  | None => false
+  end.
+
+(** * Executable invariants (their Prop-level forms are proved inductive in
+    Proofs/Pool.v; these boolean forms are evaluated on every reachable state of
+    small scripts by the explorer in ocaml/pool.ml, as a test of the statements
+    before proving them). *)
 
 Definition in_broadcast (c : cstate) : bool :=
   match c with CIdle | CDone => false | _ => true end.
 
+(** Workers 1 .. [sent c - 1] have been handed the current task. *)
+Definition sent (c : cstate) : nat :=
+  match c with CSend k _ => k | CRun n | CLoad n | CPark n => S n | CIdle | CDone => 0 end.
+
+Definition caller_ran (c : cstate) : bool :=
+  match c with CLoad _ | CPark _ => true | _ => false end.
+
+Definition bcast_n (c : cstate) : nat :=
+  match c with CSend _ n | CRun n | CLoad n | CPark n => n | CIdle | CDone => 0 end.
+
+Definition is_wrun (b : nat) (w : wstate) : bool :=
+  match w with WRun b' => Nat.eqb b b' | _ => false end.
+
+(** Has index [i] of the current broadcast been called? (decided from the
+    control state alone) *)
+Definition called (s : state) (i : nat) : bool :=
+  match i with
+  | O => caller_ran (cst s)
+  | S j => Nat.ltb i (sent (cst s))
+           && match nth_error (ws s) j with Some w => negb (is_wrun (cur s) w) | None => false end
+  end.
+
 Definition inv_rc (s : state) : bool :=
   match cst s with
-  | CRun n | CLoad n | CPark n => Nat.eqb (rc s) (count_pre s)
+  | CRun n | CLoad n | CPark n => Nat.eqb (rc s) (count_pre s) && Nat.leb n (length (ws s))
   | CSend k n => Nat.eqb (rc s) (count_pre s + (S n - k)) && Nat.leb 1 k && Nat.leb k n
                  && Nat.leb n (length (ws s))
   | CIdle | CDone => Nat.eqb (count_pre s) 0
@@ -362,22 +467,75 @@ Definition inv_pre_current (s : state) : bool :=
 
 Definition inv_alive (s : state) : bool := Bool.eqb (alive s) (in_broadcast (cst s)).
 
-Definition is_unpark (w : wstate) : bool := match w with WUnpark _ => true | _ => false end.
+Definition is_unpark (b : nat) (w : wstate) : bool :=
+  match w with WUnpark b' => Nat.eqb b b' | _ => false end.
 
 Definition inv_wakeup (s : state) : bool :=
   match cst s with
-  | CPark _ => if Nat.eqb (rc s) 0 && negb (token s) then existsb is_unpark (ws s) else true
+  | CPark _ => if Nat.eqb (rc s) 0 && negb (token s) then existsb (is_unpark (cur s)) (ws s) else true
   | _ => true
   end.
 
 Definition inv_exit (s : state) : bool :=
   match cst s with
   | CDone => true
-  | _ => forallb (fun w => match w with WExit => false | _ => true end) (ws s)
+  | _ => forallb (fun w => negb (is_wexit w)) (ws s)
   end.
 
-Definition inv_all (s : state) : bool :=
+(** Pre-decrement workers are among those already sent to. *)
+Definition inv_sent (s : state) : bool :=
+  forallb (fun k => match getw s k with
+                    | Some w => if any_pre w then Nat.ltb k (sent (cst s)) else true
+                    | None => true
+                    end) (seq 1 (length (ws s))).
+
+Fixpoint nodupb (l : list call) : bool :=
+  match l with [] => true | x :: t => negb (vmem x t) && nodupb t end.
+
+Definition inv_calls (s : state) : bool :=
+  nodupb (calls s)
+  && forallb (fun d => Nat.leb (fst d) (cur s)) (calls s)
+  && forallb (fun d => vmem d (calls s)) (panics s)
+  && (if in_broadcast (cst s)
+      then forallb (fun i => Bool.eqb (vmem (cur s, i) (calls s)) (called s i))
+                   (seq 0 (S (S (length (ws s)))))
+      else true).
+
+Definition inv_slots (s : state) : bool :=
+  if in_broadcast (cst s) then slots_eqb (slots s) (expected_slots s (cur s) (bcast_n (cst s))) else true.
+
+(** Views (meaningful when the decrement releases and the load acquires):
+    the caller knows its own call; a worker between call and decrement knows its
+    call; the counter's view knows the calls of the workers past the decrement. *)
+Definition inv_views (c : cfg) (s : state) : bool :=
+  if in_broadcast (cst s) then
+    (if caller_ran (cst s) then vmem (cur s, 0) (cview s) else true)
+    && forallb (fun k => if called s k then
+                           match getw s k with
+                           | Some (WClone _) | Some (WDec _) => vmem (cur s, k) (getview s k)
+                           | _ => if is_release (c_dec c) then vmem (cur s, k) (lview s) else true
+                           end
+                         else true) (seq 1 (length (ws s)))
+  else true.
+
+Definition inv_returned (c : cfg) (s : state) : bool :=
+  forallb (fun r => once_per_index s (r_b r) (r_n r)
+                    && (if is_release (c_dec c) && is_acquire (c_load c) then view_has_all (r_b r) (r_n r) (r_view r) else true)
+                    && slots_eqb (r_slots r) (expected_slots s (r_b r) (r_n r))
+                    && (if in_broadcast (cst s) then Nat.ltb (r_b r) (cur s) else Nat.leb (r_b r) (cur s)))
+          (returned s)
+  && Nat.eqb (length (returned s)) (if in_broadcast (cst s) then cur s - 1 else cur s).
+
+Definition inv_all (c : cfg) (s : state) : bool :=
   inv_rc s && inv_pre_current s && inv_alive s && inv_wakeup s && inv_exit s && negb (bad s)
-  && Nat.eqb (length (wviews s)) (length (ws s)).
+  && Nat.eqb (length (wviews s)) (length (ws s))
+  && inv_sent s && inv_calls s && inv_slots s && inv_views c s && inv_returned c s.
+
+(** Names of the failing conjuncts (for the explorer's report). *)
+Definition inv_failures (c : cfg) (s : state) : list nat :=
+  filter (fun i => negb (nth i [inv_rc s; inv_pre_current s; inv_alive s; inv_wakeup s; inv_exit s; negb (bad s);
+                                Nat.eqb (length (wviews s)) (length (ws s));
+                                inv_sent s; inv_calls s; inv_slots s; inv_views c s; inv_returned c s] true))
+         (seq 0 12).
 
 End PoolM.
